@@ -21,7 +21,8 @@ IsEv(e) == l <= Len(Rec) /\ Rec[l].ev = e /\ l' = l + 1
 Added(U, e) == e \in 1..Len(U.ents) /\ U.ents[e].tag # ""
 
 Units == IsEv("Units") /\ LET r == Rec[l] IN
-    D' = Start([u \in 1..Len(r.units) |-> [version |-> r.units[u].version, word |-> r.units[u].format, asz |-> r.units[u].asz]])
+    D' = Start([u \in 1..Len(r.units) |-> [version |-> r.units[u].version, word |-> r.units[u].format, asz |-> r.units[u].asz,
+                                              prog |-> IF "lineprog" \in DOMAIN r.units[u] THEN r.units[u].lineprog ELSE 0]])
 
 CallOk(k) ==
     /\ k.u \in 1..Len(D.units)
